@@ -21,7 +21,9 @@ EvChecks(ev) ==
                        \A a \in Assets :
                          (ev.obs.pending["trio"][a] -- (ev.obs.alltime["trio"][a] -- prev.alltime["trio"][a]))
                            = (prev.pending["trio"][a] -- Collectable(prev, "trio", a))>> >>
-         ELSE << <<"C10.failed-step-leaves-everything-unchanged", ev.dpre = ev.dpost>> >>
+         ELSE << <<"C10.failed-step-leaves-everything-unchanged", ev.dpre = ev.dpost>>,
+                 \* the title of C10: owed fees reach the epoch - a due epoch over a healthy pipeline must be created
+                 <<"C10.healthy-pipeline-creates-the-epoch", ev.args.route = "fails">> >>
     [] ev.ev = "forward" ->
          << <<"C10.only-the-distributor-forwards", ev.res # "ok">>,
             <<"C10.rejected-forward-changes-nothing", ev.dpre = ev.dpost>> >>
